@@ -686,6 +686,11 @@ Definition vcf_eqb (m : list (list (list (Z * list Z)))) (ovcf : list (list (lis
   list_eqb (list_eqb (list_eqb (fun a b => (fst a =? fst b) && list_eqb Z.eqb (snd a) (snd b))))
            m (map (map (map (fun c => (fst c, gcode (fst (snd c)))))) ovcf).
 
+(* the model's own outputs seen as an observation (the model does not produce PS tags) *)
+Definition obs_of_out (out : outputs) : observed :=
+  mkObs (out_reads out) (out_gts out) (out_recs out)
+        (map (map (map (fun c : Z * list Z => (fst c, (snd c, @None Z))))) (out_vcf out)).
+
 (* ================================================================== one evaluated run (rendered by the harness) *)
 Record case := mkCase {
   k_opts : opts;
